@@ -417,7 +417,7 @@ fn run(ctx: &Ctx, spec: &PartSpec) -> PartResult {
     let mut res = PartResult::new(&spec.name, "");
     vseq::quiet_panics();
     if let Some(s) = spec.arg["loom"].as_str() {
-        vcore::loompart::run(s, spec.arg["pb"].as_u64(), &mut res);
+        vcore::loompart::run_with_budget(s, spec.arg["pb"].as_u64(), ctx.budget_s, &mut res);
     } else if let Some(s) = spec.arg["e1"].as_str() {
         let pb = spec.arg["pb"].as_u64().unwrap_or(2) as usize;
         let scn = match s {
